@@ -152,7 +152,9 @@ def examine(case, draw=None, stats=None):
     import contextlib, io
     variants = [(['bib'], {}, 'plain'), (None, {}, 'default-columns'),
                 (['order', 'bib', 'first_name', 'last_name', 'team', 'category'], {}, 'start-list-columns'),
-                (['bib'], {'verbose': True}, 'verbose-import')]
+                (['bib'], {'verbose': True}, 'verbose-import'),
+                # the result columns an exported sheet usually carries (documented as recalculated, so discarded, on import)
+                (['bib', 'highest_cleared'], {}, 'result-columns')]
     for keys, kw, vname in variants:
         m = safe_call(c.to_matrix, list(keys)) if keys is not None else safe_call(c.to_matrix)
         if m[0] == 'exc':
